@@ -505,6 +505,58 @@ func init() {
 	})
 }
 
+// symbolicTimeParse executes the real time.parse from its SSA on symbolic text; only the
+// leaves that touch Time's representation are models (Date, addSec, setLoc, unixSec,
+// Location.lookup, FixedZone).
 func (ex *Exec) symbolicTimeParse(fr *frame, pos token.Pos, layout string, s *Str) value {
-	panic(ex.unsupported("time.Parse of symbolic text (layout " + layout + ")"))
+	ex.needBytes(s)
+	pkg := ex.P.SSAPkgs["time"]
+	if pkg == nil {
+		panic(ex.unsupported("time.Parse of symbolic text: package time not loaded with bodies"))
+	}
+	f := pkg.Func("parse")
+	if f == nil || f.Blocks == nil {
+		panic(ex.unsupported("time.Parse of symbolic text: no body for time.parse"))
+	}
+	utc, local := new(value), new(value)
+	*utc, *local = locUTC, locLocal
+	ex.Models["time.parse(executed from source)"]++
+	return ex.callSSA(fr, pos, f, []value{ex.strConst(layout), &Str{b: s.b}, utc, local}, nil)
+}
+
+func init() {
+	execFuncPrefixes = append(execFuncPrefixes, "time.", "(*time.ParseError).")
+	reg("(*time.Time).addSec", func(ex *Exec, fr *frame, pos token.Pos, args []value) value {
+		c := args[0].(*value)
+		t := (*c).(TimeV)
+		*c = TimeV{sec: ex.b.Add(t.sec, args[1].(*smt.Term)), nsec: t.nsec, loc: t.loc}
+		return nil
+	})
+	reg("(*time.Time).setLoc", func(ex *Exec, fr *frame, pos token.Pos, args []value) value {
+		c := args[0].(*value)
+		t := (*c).(TimeV)
+		loc := ex.asLoc(args[1])
+		if loc == nil {
+			loc = locUTC
+		}
+		*c = TimeV{sec: t.sec, nsec: t.nsec, loc: loc}
+		return nil
+	})
+	reg("(*time.Time).unixSec", func(ex *Exec, fr *frame, pos token.Pos, args []value) value {
+		return ex.asTime(args[0]).sec
+	})
+	reg("(*time.Location).lookup", func(ex *Exec, fr *frame, pos token.Pos, args []value) value {
+		loc := ex.asLoc(args[0])
+		if loc != nil && loc.kind == "local" {
+			// the process-local zone is never taken to coincide with a parsed offset: the parsed
+			// value gets a fixed zone (same instant and offset; only Location().String() differs)
+			return tuple{ex.strConst(""), ex.k(-99999999), ex.k(0), ex.k(0), ex.b.False}
+		}
+		panic(ex.unsupported("time.Location.lookup on a non-local zone"))
+	})
+	reg("(*time.Location).get", func(ex *Exec, fr *frame, pos token.Pos, args []value) value { return args[0] })
+	for _, pk := range []string{"strings", "internal/stringslite"} {
+		pk := pk
+		reg(pk+".Clone", func(ex *Exec, fr *frame, pos token.Pos, args []value) value { return args[0] })
+	}
 }
